@@ -318,8 +318,8 @@ func relations(w *W, c *gen.Case, k int, h []byte, re *coregex.Regex, eng *meta.
 	wantText := "nil"
 	wantStr := `""`
 	if loc != nil && loc[0] >= 0 && loc[1] <= len(h) && loc[0] <= loc[1] {
-		wantText = strconv.Quote(string(h[loc[0]:loc[1]]))
-		wantStr = wantText
+		wantText = obs.Bytes(h[loc[0]:loc[1]]) // the haystack sliced at FindIndex (nil when the haystack is nil)
+		wantStr = strconv.Quote(string(h[loc[0]:loc[1]]))
 	}
 	rel("R3 Find", C(func() string { return obs.Bytes(re.Find(h)) }), wantText)
 	rel("R4 FindString", C(func() string { return strconv.Quote(re.FindString(s)) }), wantStr)
@@ -348,22 +348,8 @@ func relations(w *W, c *gen.Case, k int, h []byte, re *coregex.Regex, eng *meta.
 	smis := obs.Ints(smi)
 	rel("R7 FindStringSubmatchIndex", C(func() string { return obs.Ints(re.FindStringSubmatchIndex(s)) }), smis)
 	rel("R7 FindReaderSubmatchIndex", C(func() string { return obs.Ints(re.FindReaderSubmatchIndex(obs.Reader(h))) }), smis)
-	rel("R7 FindSubmatch", C(func() string { return obs.Bytes2(re.FindSubmatch(h)) }), sliceGroups(h, smi))
-	rel("R7 FindStringSubmatch", C(func() string {
-		r := re.FindStringSubmatch(s)
-		if r == nil {
-			return "nil"
-		}
-		b := make([][]byte, len(r))
-		for q := range r {
-			if smi != nil && 2*q < len(smi) && smi[2*q] >= 0 {
-				b[q] = []byte(r[q])
-			} else if r[q] != "" {
-				b[q] = []byte(r[q])
-			}
-		}
-		return obs.Bytes2(b)
-	}), sliceGroups(h, smi))
+	rel("R7 FindSubmatch", C(func() string { return texts(re.FindSubmatch(h)) }), sliceGroups(h, smi))
+	rel("R7 FindStringSubmatch", C(func() string { return obs.Strs(re.FindStringSubmatch(s)) }), sliceGroups(h, smi))
 	// R8, R9
 	all := re.FindAllIndex(h, -1)
 	alls := obs.Ints2(all)
@@ -381,18 +367,8 @@ func relations(w *W, c *gen.Case, k int, h []byte, re *coregex.Regex, eng *meta.
 	}
 	// R10: other FindAll variants through projection
 	rel("R10 FindAllStringIndex", C(func() string { return obs.Ints2(re.FindAllStringIndex(s, -1)) }), alls)
-	rel("R10 FindAll", C(func() string { return obs.Bytes2(re.FindAll(h, -1)) }), sliceAll(h, all))
-	rel("R10 FindAllString", C(func() string {
-		r := re.FindAllString(s, -1)
-		if r == nil {
-			return "nil"
-		}
-		b := make([][]byte, len(r))
-		for q := range r {
-			b[q] = []byte(r[q])
-		}
-		return obs.Bytes2(b)
-	}), sliceAll(h, all))
+	rel("R10 FindAll", C(func() string { return texts(re.FindAll(h, -1)) }), sliceAll(h, all))
+	rel("R10 FindAllString", C(func() string { return obs.Strs(re.FindAllString(s, -1)) }), sliceAll(h, all))
 	// R11
 	asi := re.FindAllSubmatchIndex(h, -1)
 	var proj [][]int
@@ -420,11 +396,11 @@ func relations(w *W, c *gen.Case, k int, h []byte, re *coregex.Regex, eng *meta.
 		return obs.Ints2(a)
 	}), alls)
 	rel("R13 AllString", C(func() string {
-		var a [][]byte
+		var a []string
 		for m := range re.AllString(s) {
-			a = append(a, []byte(m))
+			a = append(a, m)
 		}
-		return obs.Bytes2(a)
+		return obs.Strs(a)
 	}), sliceAll(h, all))
 	// R14
 	rel("R14 AppendAllIndex", C(func() string {
@@ -538,31 +514,48 @@ func relations(w *W, c *gen.Case, k int, h []byte, re *coregex.Regex, eng *meta.
 	}
 }
 
+// sliceGroups renders the texts of the groups of a submatch vector (a group
+// that did not participate has the empty text, as in the string API).
 func sliceGroups(h []byte, v []int) string {
 	if v == nil {
 		return "nil"
 	}
-	out := make([][]byte, len(v)/2)
+	out := make([]string, len(v)/2)
 	for g := range out {
 		a, b := v[2*g], v[2*g+1]
 		if a >= 0 && b >= a && b <= len(h) {
-			out[g] = h[a:b]
+			out[g] = string(h[a:b])
 		}
 	}
-	return obs.Bytes2(out)
+	return obs.Strs(out)
 }
 
 func sliceAll(h []byte, all [][]int) string {
 	if len(all) == 0 {
 		return "nil"
 	}
-	out := make([][]byte, len(all))
+	out := make([]string, len(all))
 	for q, m := range all {
 		if m[0] >= 0 && m[1] >= m[0] && m[1] <= len(h) {
-			out[q] = h[m[0]:m[1]]
+			out[q] = string(h[m[0]:m[1]])
+		} else {
+			out[q] = "<ill-formed span>"
 		}
 	}
-	return obs.Bytes2(out)
+	return obs.Strs(out)
+}
+
+// texts renders match texts by content (whether an empty text is a nil or an
+// empty slice is not an observable the relations are about).
+func texts(a [][]byte) string {
+	if a == nil {
+		return "nil"
+	}
+	out := make([]string, len(a))
+	for q := range a {
+		out[q] = string(a[q])
+	}
+	return obs.Strs(out)
 }
 
 func splice(h []byte, all [][]int, r string) []byte {
